@@ -164,7 +164,9 @@ func willDelayClampOnFlag(c *Ctx, rule string) {
 		n++
 		c.underFact(rule, "(*mqtt.Client).ParseConnect: the will delay is clamped exactly when the CONNECT carries a session expiry interval", st, textEq("pk.Properties.SessionExpiryIntervalFlag"), true,
 			"a test of the value (> 0) misses the explicit 0")
-		c.ob(rule, "(*mqtt.Client).ParseConnect: the clamped will delay is the CONNECT's session expiry interval", c.pos(st.Pos()), describe(st.Val) == "pk.Properties.SessionExpiryInterval", "stores "+describe(st.Val))
+		c.ob(rule, "(*mqtt.Client).ParseConnect: the clamped will delay is the CONNECT's session expiry interval", c.pos(st.Pos()),
+			// (or the will's own delay again, when the clamp is written as `d = own; if d > expiry { d = expiry }`)
+			describe(st.Val) == "pk.Properties.SessionExpiryInterval" || describe(st.Val) == "pk.Connect.WillProperties.WillDelayInterval", "stores "+describe(st.Val))
 	}
 	c.floor(rule+" will-delay clamps in ParseConnect", n, 1)
 }
@@ -243,7 +245,7 @@ func prefixPatternNeedsMore(c *Ctx, rule string) {
 		if t, _, ok := condOf(b); ok {
 			for _, sp := range factSpellings(t, true) {
 				s := sp[0].(string)
-				if strings.HasPrefix(s, "builtin.len(a) > strings.Index(") || strings.HasPrefix(s, "strings.Index(") && strings.HasSuffix(s, " < builtin.len(a)") {
+				if strings.HasPrefix(s, "builtin.len(a) > strings.Index") || strings.HasPrefix(s, "strings.Index") && strings.HasSuffix(s, " < builtin.len(a)") {
 					has = true
 				}
 			}
